@@ -45,7 +45,8 @@ PID = "C04"
 LEVEL = "exploration"
 RULE = ("(i) exhaustive: itertools.product over the 13-symbol alphabet {Activate, Revoke x 4 reason "
         "codes, Destroy, Encrypt, Decrypt, Sign, SignatureVerify, MAC, DeriveKey, Get-with-wrapping}, "
-        "all sequences of length 1..3 (quick: 37 cells) / 1..4 (thorough: the 46 cells whose use is "
+        "all sequences of length 1..3 (quick: 37 cells, plus the length-4 words starting with Activate "
+        "for the three key kinds with every mask bit) / 1..4 (thorough: the 46 cells whose use is "
         "not ruled out by the object kind alone), 1..5 (thorough: SymmetricKey/all), 1..3 (thorough: "
         "the other 50 cells), applied to one fresh object per cell = stored object type x "
         "usage mask in {none, all, only-b, all-but-b for the seven use bits b}; (ii) random: "
@@ -627,6 +628,8 @@ def trie_worker(otype, mlabel, maxdepth, first_ops):
                     infos.append((hc2, nt2, succ2))
             prev = seq
         col.bump("i_jobs")
+        if confirmed.get("__not_reproduced__"):
+            col.bump("i_trie_findings_not_reproduced_by_linear_execution", confirmed["__not_reproduced__"])
     finally:
         w.close()
     return col
@@ -648,9 +651,12 @@ def _confirm(spec, buckets, confirmed):
             confirmed[k] = confirmed.get(k, 0) + 1
             out.append((k, lin[k]))
         else:
-            raise core.HarnessError(
-                "trie walk and linear execution disagree on %r: trie bucket %s (%s), linear %r"
-                % (spec, k, d, sorted(lin)))
+            # the trie walk rewinds the database file under a running engine: if the engine keeps
+            # anything about an object outside the database, a branch can see what a sibling
+            # branch left there - not a history a client can produce.  Only what the linear
+            # execution on a fresh server reproduces is reported (the same sequence is part of
+            # the enumeration as a word of its own, and is then confirmed linearly).
+            confirmed["__not_reproduced__"] = confirmed.get("__not_reproduced__", 0) + 1
     return out
 
 
@@ -720,11 +726,24 @@ def trie_jobs(tier):
     for t, m, d in sorted(plan(tier), key=lambda c: -c[2]):     # the long jobs first
         for g in (groups3 if d <= 3 else [[op] for op in ALPHABET]):
             jobs.append((t, m, d, g))
+    for t, m, d, g in extra_jobs(tier):
+        jobs.append((t, m, d, g))
     return jobs
 
 
+def extra_jobs(tier):
+    """quick: the length-4 words that start with Activate, for the three key kinds with every
+    mask bit (use - state change - use again needs four symbols)."""
+    if tier != "quick":
+        return []
+    return [(t, "all", 4, ["Activate"]) for t in ("SymmetricKey", "PrivateKey", "PublicKey")]
+
+
 def expected_sequences(tier):
-    return sum(sum(len(ALPHABET) ** k for k in range(1, d + 1)) for _, _, d in plan(tier))
+    base = sum(sum(len(ALPHABET) ** k for k in range(1, d + 1)) for _, _, d in plan(tier))
+    # an extra job enumerates its first symbol's words of length 1..d (prefixes again)
+    extra = sum(len(g) * sum(len(ALPHABET) ** k for k in range(0, d)) for _, _, d, g in extra_jobs(tier))
+    return base + extra
 
 
 # ---------------------------------------------------------------- part (ii): histories
